@@ -56,6 +56,9 @@ pub fn run_exe(exe: &str, args: &[String], env: &[(String, String)], overall: Du
                 let mut g = lm.lock().unwrap();
                 g.0 = Some(m.to_string());
                 g.1 = Instant::now();
+            } else if line == "UNMARK" {
+                let mut g = lm.lock().unwrap();
+                g.0 = None;
             } else {
                 if line.starts_with("stat::") || line.contains("DONE") {
                     let mut n = nb.lock().unwrap();
@@ -189,8 +192,10 @@ fn absorb(
     stats: &mut Stats,
     violations: &mut Vec<Failure>,
     inconclusive: &mut Vec<String>,
-) {
+) -> Vec<usize> {
     let id = prop.id();
+    // workers killed for a stale case that passes alone: slow (loaded machine), not stuck
+    let mut slow: Vec<usize> = vec![];
     for (i, o) in outcomes.iter().enumerate() {
         if let Some(r) = &o.result {
             stats.merge_json(&r["stats"]);
@@ -222,7 +227,15 @@ fn absorb(
         // Confirm the marked case alone, with a 10x limit.
         let limit = Duration::from_secs(prop.case_limit_s() * 10);
         let mut ctx = Ctx::new(id, tier, seed, 0, 1);
-        match confirm_case(id, &mark, limit) {
+        // a case whose outcome depends on the OS scheduler gets several attempts to reproduce
+        let mut confirmed = confirm_case(id, &mark, limit);
+        for _ in 1..prop.confirm_attempts() {
+            if !matches!(confirmed, Confirm::Passed) {
+                break;
+            }
+            confirmed = confirm_case(id, &mark, limit);
+        }
+        match confirmed {
             Confirm::Crashed { signal, stderr, .. } => {
                 let f = prop.describe_crash(&mark, signal, &stderr);
                 match ctx.judge(f) {
@@ -256,6 +269,7 @@ fn absorb(
                 "fuzz worker {} stopped early: libFuzzer's per-input time limit hit on an input that passes alone (slow, not stuck); its remaining share was not explored",
                 i
             )),
+            Confirm::Passed if who == "worker" && o.hung => slow.push(i),
             Confirm::Passed => inconclusive.push(format!(
                 "{} {} died (exit={:?} signal={:?} hung={}) but its last case passes alone: {}",
                 who,
@@ -268,7 +282,7 @@ fn absorb(
             Confirm::HarnessError(e) => inconclusive.push(e),
         }
     }
-
+    slow
 }
 
 pub fn fuzz_bin() -> String {
@@ -391,7 +405,7 @@ fn fuzz_stage(
         execs,
         clip(&cov.join(" | "), 600)
     ));
-    absorb(prop, tier, seed, &outcomes, "fuzz worker", stats, violations, inconclusive);
+    let _ = absorb(prop, tier, seed, &outcomes, "fuzz worker", stats, violations, inconclusive);
     let _ = std::fs::remove_dir_all(&root);
 }
 
@@ -475,7 +489,33 @@ pub fn check(prop: &dyn Property, tier: Tier, seed: u64) -> i32 {
         handles.push(std::thread::spawn(move || run_child(&args, overall, mark_timeout)));
     }
     let outcomes: Vec<WorkerOutcome> = handles.into_iter().map(|h| h.join().unwrap()).collect();
-    absorb(prop, tier, seed, &outcomes, "worker", &mut stats, &mut violations, &mut inconclusive);
+    let slow = absorb(prop, tier, seed, &outcomes, "worker", &mut stats, &mut violations, &mut inconclusive);
+    if !slow.is_empty() {
+        // second attempt for the shares of workers that were only slow, with a 10x case limit
+        let long = mark_timeout.map(|t| t * 10);
+        let mut handles = vec![];
+        for &shard in &slow {
+            let args: Vec<String> = vec![
+                "shard".into(),
+                id.into(),
+                "--tier".into(),
+                tier.name().into(),
+                "--seed".into(),
+                seed.to_string(),
+                "--shard".into(),
+                shard.to_string(),
+                "--of".into(),
+                nshards.to_string(),
+            ];
+            handles.push(std::thread::spawn(move || run_child(&args, overall, long)));
+        }
+        let again: Vec<WorkerOutcome> = handles.into_iter().map(|h| h.join().unwrap()).collect();
+        stats.notes.push(format!("{} worker(s) exceeded the per-case limit on a case that passes alone (slow machine, not a hang); their shares were run again with a 10x limit", slow.len()));
+        let still = absorb(prop, tier, seed, &again, "worker", &mut stats, &mut violations, &mut inconclusive);
+        for i in still {
+            inconclusive.push(format!("worker for share {} exceeded even the 10x per-case limit on a case that passes alone", slow[i]));
+        }
+    }
 
     // 2b. coverage-guided stage (thorough tier): libFuzzer drives the same choice-stream closure.
     if let Some(spec) = prop.fuzz() {
